@@ -6,6 +6,10 @@ mod props;
 mod util;
 
 fn main() {
+	// panics of the implementation are caught and reported per case; keep stderr quiet
+	if std::env::var("VERIF_PANIC_TRACE").is_err() {
+		std::panic::set_hook(Box::new(|_| {}));
+	}
 	let args: Vec<String> = std::env::args().collect();
 	if args.len() < 2 {
 		eprintln!("usage: verif-harness <property> <seed> <count> <outdir> [extra...]");
@@ -13,6 +17,7 @@ fn main() {
 	}
 	let code = match args[1].as_str() {
 		"c19" => props::c19::main(&args[2..]),
+		"c01" | "c03" | "c07" | "c08" | "hist" => props::hist::main(&args[2..], args[1].as_str()),
 		other => {
 			eprintln!("unknown subcommand {other}");
 			2
